@@ -436,7 +436,7 @@ func genConv17(g *Gen, w *bufio.Writer) {
 	}
 	// named zones with daylight saving, winter and summer instants alternating through one shared location object per zone
 	// (whatever the encoder derives from the location must follow the instant)
-	for _, zn := range []string{"Europe/Paris", "America/New_York", "Australia/Sydney", "Asia/Kolkata", "America/St_Johns", "Pacific/Chatham"} {
+	for _, zn := range []string{"Europe/Paris", "America/New_York", "Australia/Sydney", "Asia/Kolkata", "America/St_Johns", "Pacific/Chatham", "Australia/Lord_Howe", "Europe/Dublin", "Africa/Casablanca"} {
 		loc := sharedLoc(zn)
 		if loc == nil {
 			continue
